@@ -452,7 +452,7 @@ template <typename T>
 bool swap(span<T> s, long p1, long p2)
 {
 	long len = s.size();
-	if (p1 > len || p2 > len) {
+	if (p1 < 0 || p2 < 0 || p1 >= len || p2 >= len) {
 		return false;
 	}
 	T *b = s.begin();
@@ -939,8 +939,16 @@ public:
 	{
 		return ::mpt::unused(generic());
 	}
-	inline bool swap(long p1, long p2) const
+	inline bool swap(long p1, long p2)
 	{
+		long len = this->length();
+		if (p1 < 0 || p2 < 0 || p1 >= len || p2 >= len) {
+			return false;
+		}
+		/* elements may be shared with copies of the array */
+		if (!this->detach()) {
+			return false;
+		}
 		return ::mpt::swap(generic(), p1, p2);
 	}
 };
